@@ -336,6 +336,10 @@ LOOPS = [
     ["28", "38", "4001", "1f06", "1302"],
     # 1000 CALLF 01008 / 1004 JR -6 / 1006 NOP NOP / 1008 PUSHS F / 1009 POPS F / 100A RETF
     ["05081000", "1306", "00", "00", "4f", "5f", "07"],
+    # 1000 CALL 1000 (unbounded recursion: call depth grows by one per step)
+    ["040010"],
+    # 1000 CALLF 01000
+    ["05001000"],
 ]
 
 
